@@ -281,6 +281,9 @@ func jtableToks(t *table, prof profile) string {
 	return sb.String()
 }
 
+var pathNames = []string{"a", "a", "b", "a.b", "a.b", "a.c", "a.b.c", "a.b.d", "b.a", "c.d.e.f", "a\\.b", "\\.b", "x\\\\.y", "a\\b.c", "a.b\\", "\\", "a..b", ".a", "a.", "", ".",
+	"é.日", "a.a", "A.b", "a .b", "k.\"q\"", "[1].x", "a.b.c.d", "b.c"}
+
 func jencCase(g *hc.Gen, o *hc.Out) {
 	f := []option.Format{option.JSON, option.JSON, option.JSONL}[g.Intn(3)]
 	op := genOpts(g, f)
@@ -288,6 +291,14 @@ func jencCase(g *hc.Gen, o *hc.Out) {
 		op.pretty = false
 	}
 	t := genJsonTable(g, 5)
+	paths := g.Intn(3) == 0
+	if paths {
+		// column names as paths into nested objects (Csvq.Model.JsonPath): prefixes of one another,
+		// duplicates, escapes, empty segments
+		for j := range t.header {
+			t.header[j] = pathNames[g.Intn(len(pathNames))]
+		}
+	}
 	if !validText(t) {
 		return
 	}
@@ -300,6 +311,9 @@ func jencCase(g *hc.Gen, o *hc.Out) {
 		impl = hexTok(b)
 	}
 	o.Case(line, impl)
+	if paths {
+		o.Count("jenc:paths:" + okErr(err))
+	}
 	o.Count(fmt.Sprintf("jenc:%s:esc%d:pretty%s", fmtName(f), op.jsonEscape, b01(op.pretty)))
 	o.NonTrivial("jenc|" + op.sig() + "|" + textClasses(t) + "|" + dimClass(t) + "|" + b01(err != nil))
 }
